@@ -282,6 +282,14 @@ class Parts(object):
     def oracle(self, case, obs):
         return self._p(case).oracle(case, obs)
 
+    def views_equal(self, case, mv, iv):
+        p = self._p(case)
+        return p.views_equal(case, mv, iv) if hasattr(p, "views_equal") else mv == iv
+
+    def first_diff(self, case, mv, iv):
+        p = self._p(case)
+        return p.first_diff(case, mv, iv) if hasattr(p, "first_diff") else None
+
     def nontrivial(self, case, obs):
         return self._p(case).nontrivial(case, obs)
 
